@@ -7,6 +7,7 @@ NaN-poisoned probe debiaser and on the real debiasers."""
 import datetime, warnings
 import numpy as np
 from . import common as C
+from . import drivers
 
 GEN_FILES = ["GenWindows"]
 TRUSTED = ["C07: datetime -> (day of year, year) extraction is ibicus' own day_of_year/year (model starts from the integer arrays)",
@@ -214,6 +215,7 @@ def correspondence(res, tier, seed):
         span = int(uy.max() - uy.min() + 1)
         res.case(("years", kind, span <= S, span % S == 0), sample=dict(kind=kind, years=[int(y) for y in uy[:6]], L=L, S=S, centers=centers[:5]) if i < 2 else None)
         res.count("years/" + kind)
+    drivers.k3(res, tier, seed, tag="k3c07", n_quick=30, n_thorough=300)
     fails, errors = cc.run()
     res.components["K1/K2 GenWindows vs _running_window_mode.py"] = dict(cases=len(cc.cases), disagreements=len(fails), errors=len(errors))
     for e in errors[:3]:
